@@ -170,6 +170,45 @@ def r01_1(ctx: Ctx, rep: Report) -> Dict[str, List[str]]:
                     if isinstance(kv, (tuple, list)) and all(isinstance(x, str) for x in kv):
                         for i, k in enumerate(kv):
                             data_keys[k] = ast.Subscript(value=ast.Name(id=v_.value.id, ctx=ast.Load()), slice=ast.Constant(value=i), ctx=ast.Load())
+        # `*fields, tail = (s.strip() for s in found)`: the stripped groups unpacked by position; `dict(zip(KEYS, fields))`
+        # names the leading ones, `data.update(helper(tail))` adds the keys the helper returns for the last one
+        star_locals: Dict[str, ast.AST] = {}
+        for n in own_nodes(f.node):
+            if isinstance(n, ast.Assign) and len(n.targets) == 1 and isinstance(n.targets[0], ast.Tuple) and isinstance(n.value, (ast.GeneratorExp, ast.ListComp)) and "strip" in src(n.value) and len(n.value.generators) == 1 and isinstance(n.value.generators[0].iter, ast.Name):
+                elts = n.targets[0].elts
+                stars = [i for i, e in enumerate(elts) if isinstance(e, ast.Starred)]
+                if len(stars) <= 1 and all(isinstance(e.value if isinstance(e, ast.Starred) else e, ast.Name) for e in elts):
+                    items_name = items_name or "groups__"
+                    slices: Dict[str, Tuple[int, int]] = {}
+                    for i, e in enumerate(elts):
+                        if isinstance(e, ast.Starred):
+                            slices[e.value.id] = (i, ngroups - (len(elts) - 1 - i))
+                        else:
+                            gi = i if (not stars or i < stars[0]) else ngroups - (len(elts) - i)
+                            star_locals[e.id] = ast.Subscript(value=ast.Name(id=items_name, ctx=ast.Load()), slice=ast.Constant(value=gi), ctx=ast.Load())
+                    for m in own_nodes(f.node):
+                        if isinstance(m, (ast.Assign, ast.AnnAssign)) and isinstance(m.value, ast.Call) and src(m.value.func) == "dict" and len(m.value.args) == 1 and isinstance(m.value.args[0], ast.Call) and src(m.value.args[0].func) == "zip" and len(m.value.args[0].args) == 2 and isinstance(m.value.args[0].args[1], ast.Name) and m.value.args[0].args[1].id in slices:
+                            kv = ctx.folder.fold(m.value.args[0].args[0], f.module, ctx.folder.local_env(f))
+                            lo, hi = slices[m.value.args[0].args[1].id]
+                            if isinstance(kv, (tuple, list)) and all(isinstance(x, str) for x in kv) and len(kv) == hi - lo:
+                                for j, k in enumerate(kv):
+                                    data_keys[k] = ast.Subscript(value=ast.Name(id=items_name, ctx=ast.Load()), slice=ast.Constant(value=lo + j), ctx=ast.Load())
+                        if isinstance(m, ast.Expr) and isinstance(m.value, ast.Call) and isinstance(m.value.func, ast.Attribute) and m.value.func.attr == "update" and len(m.value.args) == 1 and isinstance(m.value.args[0], ast.Call):
+                            inner = m.value.args[0]
+                            g_ = ctx.prog.resolve_name(f.module, src(inner.func)) if isinstance(inner.func, ast.Name) else None
+                            if isinstance(g_, Func):
+                                rkeys: Set[str] = set()
+                                for r_ in [x for x in own_nodes(g_.node) if isinstance(x, ast.Return) and x.value is not None]:
+                                    rv = r_.value
+                                    if isinstance(rv, ast.Name):
+                                        rv = next((d_.value for d_ in own_nodes(g_.node) if isinstance(d_, (ast.Assign, ast.AnnAssign)) and d_.value is not None and src(d_.targets[0] if isinstance(d_, ast.Assign) else d_.target) == rv.id), rv)
+                                    if isinstance(rv, ast.Call) and src(rv.func) == "dict":
+                                        rkeys |= {k.arg for k in rv.keywords if k.arg}
+                                    elif isinstance(rv, ast.Dict):
+                                        rkeys |= {k.value for k in rv.keys if isinstance(k, ast.Constant)}
+                                star_locals["result__"] = inner
+                                for k in sorted(rkeys):
+                                    data_keys[k] = ast.Subscript(value=ast.Name(id="result__", ctx=ast.Load()), slice=ast.Constant(value=k), ctx=ast.Load())
         named_index: Dict[str, int] = {}
         match_name = None
         if items_name is None:
@@ -193,6 +232,7 @@ def r01_1(ctx: Ctx, rep: Report) -> Dict[str, List[str]]:
                 t = n.targets[0] if isinstance(n, ast.Assign) else n.target
                 if isinstance(t, ast.Name):
                     locals_[t.id] = n.value
+        locals_.update(star_locals)
         used: Dict[int, List[str]] = {}
         order: List[Tuple[int, str]] = []
         okq = True
